@@ -223,6 +223,20 @@ pub fn judge_query(text: &str, p: &Parsed, doc: &Doc, aspects: u8, armed: &Armed
                 }
             }
         }
+        // RFC 9535 fixes the order of a descendant segment only partially: before calling it a
+        // violation, let the permissive trace checker judge the observed per-segment node lists
+        if ast.segments.iter().any(|s| s.descendant) {
+            let (out, events) = crate::trace::with_events(|| libapi::query_with_path(text, &doc.value));
+            if let LibOutcome::Ok(ns) = &out {
+                let addrs: Vec<usize> = ns.iter().map(|n| n.0).collect();
+                if addrs == nodes.iter().map(|n| n.0).collect::<Vec<_>>() {
+                    let mut st = crate::trace::TraceStats::default();
+                    if crate::trace::check_segments(ast, doc, &events, &addrs, true, armed.has("union"), &mut st).is_ok() && st.known_union_segments == 0 {
+                        return j;
+                    }
+                }
+            }
+        }
         j.verdict = Verdict::Violated(format!(
             "result order differs from RFC document order: expected {:?} observed {:?}",
             j.ref_locs.iter().map(|l| npath::render(l)).collect::<Vec<_>>(),
